@@ -141,10 +141,35 @@ def find_sub(blocks: list, sub: list) -> int:
     return -1
 
 
+PATCH_NAMES = ["p.ips", "hack [T+Eng1.1].ips", "patch[1].ips", "fix (v2).ips", "a*b.ips", "what?.ips", "sub dir/p.ips", "caf\u00e9.ips", "100%.ips", "p.ips.bak", "~p.ips", "-p.ips", "{p}.ips"]
+
+
+def _rename_patch(prog: list, name: str) -> list:
+    from vf.gen.twins import map_children
+
+    out = []
+    for st in prog:
+        if st["k"] == "include_ips":
+            st = dict(st, f=name)
+        out.append(map_children(st, lambda sub: _rename_patch(sub, name)))
+    return out
+
+
 def check_wellformed(res: Res, rng: random.Random, recs: list[dict], delta: int, plan_: dict) -> None:
     raw = ips.build(recs)
     p1 = build_program(rng, delta, True, plan_)
     p1["files"] = {"p.ips": raw}
+    name = plan_.get("name", "p.ips")
+    if name != "p.ips":
+        # the quoted name is a file name, character for character (brackets, stars and question marks are no pattern); a file whose name the
+        # text would match as a pattern lies next to it with other records
+        p1["prog"] = _rename_patch(p1["prog"], name)
+        p1["files"] = {name: raw}
+        if "[" in name:
+            import re as _re
+            decoy_name = _re.sub(r"\[(.)[^\]]*\]", r"\1", name)
+            p1["files"][decoy_name] = ips.build([{"off": 0x123, "data": b"\xDE\xC0\xDE"}])
+        res.see("patch_file_names", name)
     p0 = build_program(rng, delta, False, plan_)
     wit = {"kind": "wellformed", "sized": plan_.get("sized"), "records": [{"off": r["off"], **({"rle": list(r["rle"])} if "rle" in r else {"data": r["data"].hex() if len(r["data"]) <= 64 else f"len={len(r['data'])}"})} for r in recs],
            "file": raw.hex() if len(raw) <= 6000 else None, "delta": delta, "plan": plan_, "src": source(p1["prog"])}
@@ -193,6 +218,37 @@ def check_wellformed(res: Res, rng: random.Random, recs: list[dict], delta: int,
             return
     res.count("wellformed_judged")
     res.count("records_compared", len(want) * times)
+    if rng.random() < 0.3:
+        emit_twice(res, p1, r1, wit)
+
+
+def emit_twice(res: Res, p1: dict, r1, wit: dict) -> None:
+    """One parse and one label resolution, two outputs (a patch and an image from the same nodes): the second output is the first one again."""
+    from vf.harness import RecWriter, Scratch, new_program
+    from vf.progcheck import materialise
+
+    src, files = materialise(p1)
+    try:
+        with Scratch(files or {}):
+            prog = new_program("low")
+            err, nodes = prog.parser.parse(src, "t.s")
+            if err is not None:
+                res.count("emit_twice_unavailable")
+                return
+            prog.resolve_labels(nodes)
+            w1, w2 = RecWriter(), RecWriter()
+            prog.emit(nodes, w1)
+            prog.resolver_reset()
+            prog.emit(nodes, w2)
+    except (AttributeError, TypeError, ValueError):
+        res.count("emit_twice_unavailable")          # internals arranged differently: nothing to judge
+        return
+    except Exception as e:  # noqa: BLE001
+        res.violate("second-output-differs", f"emitting the resolved program a second time raised {e!r}", wit)
+        return
+    res.count("programs_emitted_twice")
+    if not same_output(w1.blocks, r1.blocks) or not same_output(w2.blocks, w1.blocks):
+        res.violate("second-output-differs", f"the resolved program emitted twice: first {[(hex(a), len(b)) for a, b in w1.blocks][:6]}, second {[(hex(a), len(b)) for a, b in w2.blocks][:6]}", wit)
 
 
 def check_malformed(res: Res, raw: bytes, label: str, plan_: dict) -> None:
@@ -227,6 +283,8 @@ def run_shard(shard: dict) -> Res:
         if lo + delta < 0:
             delta = -lo if rng.random() < 0.5 else 0
         plan_ = {"place": rng.choice(PLACES), "start": rng.choice([0x8000, 0x018000, 0x02C000])}
+        if rng.random() < 0.3:
+            plan_["name"] = rng.choice(PATCH_NAMES)
         if plan_["place"] in ("loop", "macro_param", "reassigned") and delta < 0:
             delta = -delta
         check_wellformed(res, rng, recs, delta, plan_)
